@@ -85,3 +85,13 @@ func verifSplit(b []byte) (packets [][]byte, rest []byte, ok bool) {
 	}
 	return packets, nil, true
 }
+
+// verifTokensHome: every ownership token is back in its single-slot channel
+// (DESIGN 4.2): a function that returns while holding one blocks everybody
+// else for ever.
+func verifTokensHome(c *Client, tag string) {
+	verifAssert(len(c.connSem) == 1, tag+": connSem token not returned (Close, Disconnect and the next connect would block for ever)")
+	verifAssert(len(c.writeSem) == 1, tag+": writeSem token not returned (every writer would block for ever)")
+	verifAssert(len(c.atLeastOnce.seqSem) == 1, tag+": at-least-once seqSem token not returned (publishes and the next connect would block for ever)")
+	verifAssert(len(c.exactlyOnce.seqSem) == 1, tag+": exactly-once seqSem token not returned (publishes and the next connect would block for ever)")
+}
